@@ -547,3 +547,41 @@ def _o():
 def _o():
     FQ12 = _F("bls_opt", "FQ12")
     return (lambda a: (a ** 8, a ** FQ12.field_modulus), [FQ12([5, 0, 0, 7] + [0] * 8)], {})
+
+
+# ------------------------------------------------------------------ byte-like (non-bytes) arguments
+for _s in SUITES:
+    def _mk3(s):
+        @op("KeyValidate:memoryview:%s" % s, 1)
+        def _a():
+            C = getattr(I("py_ecc.bls"), SUITES[s])
+            return (lambda k: C.KeyValidate(memoryview(k)), [LIT["pk1"]], {})
+
+        @op("Verify:memoryview-key:%s" % s, 1)
+        def _b():
+            C = getattr(I("py_ecc.bls"), SUITES[s])
+            return (lambda k, m, sg: C.Verify(memoryview(k), m, sg), [LIT["pk1"], b"msg one", LIT["sig1:" + s]], {})
+    _mk3(_s)
+
+
+@op("KeyValidate:bytearray", 1)
+def _o():
+    return (I("py_ecc.bls").G2Basic.KeyValidate, [bytearray(LIT["pk1"])], {})
+
+
+@op("Aggregate:tuple-and-repeated", 1)
+def _o():
+    C = I("py_ecc.bls").G2Basic
+    return (C.Aggregate, [(LIT["sig1:basic"], LIT["sig1:basic"], LIT["sig2:basic"])], {})
+
+
+@op("expand_message_xmd:sha224-same-inputs", 0)
+def _o():
+    H = I("py_ecc.bls.hash")
+    return (H.expand_message_xmd, [b"abc", b"QUUX-V01-CS02", 100, hashlib.sha224], {})
+
+
+@op("secp256k1.sign-again-other-key", 1)
+def _o():
+    S = I("py_ecc.secp256k1")
+    return (S.ecdsa_raw_sign, [b"\x35" * 32, b"\x47" * 32], {})
